@@ -184,8 +184,12 @@ def gen(rng, n_tus=None, n_platforms=None, outside=False, missing=0.0, toggles=T
             files[f"{d}/Dense"] = [["code"], ["define", "D_NOEXT", None]]
             files[f"{d}/gr\u00f6\u00dfe.h"] = [["code"], ["define", "D_UMLAUT", None], ["code"]]
             files["inc/ma\u00df/l\u00e4nge.h"] = [["code"], ["define", "D_UMLAUT2", None]]
-            body += [["include", "q", "tab.def"], ["include", "q", "gr\u00f6\u00dfe.h"], ["include", "a", "ma\u00df/l\u00e4nge.h"]]
-            for mac in ("D_ODDEXT", "D_NOEXT", "D_UMLAUT", "D_UMLAUT2"):
+            # a blank inside the header name, angle and quote form (the blank is part of the name)
+            files["inc/my dir/ablank.h"] = [["code"], ["define", "D_BLANK_A", None]]
+            files["inc/my dir/q blank.h"] = [["code"], ["define", "D_BLANK_Q", None], ["code"]]
+            body += [["include", "q", "tab.def"], ["include", "q", "gr\u00f6\u00dfe.h"], ["include", "a", "ma\u00df/l\u00e4nge.h"],
+                     ["include", "a", "my dir/ablank.h"], ["include", "q", "my dir/q blank.h"]]
+            for mac in ("D_ODDEXT", "D_NOEXT", "D_UMLAUT", "D_UMLAUT2", "D_BLANK_A", "D_BLANK_Q"):
                 body.append(["chain", [["ifdef", mac, [["code"]]], ["else", None, [["code"]]]]])
         if links and t == 0:
             files["@out/ext/olinked.h"] = [["code"], ["define", "D_OLINK", None], ["code"], ["code"]]
